@@ -63,8 +63,9 @@ class C01(Prop):
         'corpus documents whose arguments are not adjacent are judged by the '
         'C08 relation (only whitespace before argument openers removed)',
     )
-    probes = ('buf', 'tok', 'read')
+    probes = ('buf', 'tok', 'read', 'reach')
     probed_every = 16
+    reach_required = ['reader.read_env', 'reader.read_skip_env', 'reader.read_spacer', 'reader.read_item', 'reader.read_math_env', 'reader.read_arg', 'data.TexEnv.__str__', 'data.TexCmd.__str__', 'data.TexArgs.__str__', 'tokens.tokenize_spacers']
     min_nontrivial = 1000
     budget_s = {'quick': 240, 'thorough': 3000}
 
